@@ -95,6 +95,21 @@ func propC17(run *Run, n int) {
 			break
 		}
 	}
+	// set readings: a member whose VALUES are permuted among its keys (or a key swapped with its string value) is another
+	// member — fixed cases for every in-domain set / multiset metadata
+	for _, ch := range choices {
+		if !ch.inDomain || !(ch.m.Has("S") || ch.m.Has("B")) || ch.m.Has("K") || ch.m.Has("P") {
+			continue
+		}
+		for _, pr := range [][2]*Val{
+			{VArr(VObj("x", VNum(1), "y", VNum(2))), VArr(VObj("x", VNum(2), "y", VNum(1)))},
+			{VArr(VObj("x", VStr("y"), "z", VNum(0))), VArr(VObj("y", VStr("x"), "z", VNum(0)))},
+			{VObj("k", VArr(VNum(0), VObj("a", VStr("b"), "b", VStr("a")))), VObj("k", VArr(VObj("a", VStr("a"), "b", VStr("b")), VNum(0)))},
+		} {
+			run.Count("v1:values-permuted-among-keys")
+			addC17Case(run, ch.m, ch.label+"-permuted-values", true, pr[0], pr[1])
+		}
+	}
 	for i := 0; i < n; i++ {
 		ch := choices[r.Intn(len(choices))]
 		cfg := ch.cfg()
